@@ -29,13 +29,14 @@ func init() {
 	core.Register(&core.Check{
 		ID:    "C19",
 		Level: "model_checking",
-		Rule: "all histories of <=1 (thorough <=2) earlier programs followed by a program under test over an alphabet of 46 programs (incl. pairs that raise the same run-time error from different source positions, and programs that invite!/import the embedded and Go standard modules after defining variables) (define a variable, read it, shadow a built-in name, use a built-in, raise `_` on different lines, touch Either's abstract props, raise at depth 2, syntax error, intern new symbols via evalEnv, print, read stdin, iterate, user error, error inside native code, inspect built-in prototypes), " +
+		Rule: "all histories of <=1 (thorough <=2) earlier programs followed by a program under test over an alphabet of 49 programs (incl. pairs that raise the same run-time error from different source positions, and programs that invite!/import the embedded and Go standard modules after defining variables) (define a variable, read it, shadow a built-in name, use a built-in, raise `_` on different lines, touch Either's abstract props, raise at depth 2, syntax error, intern new symbols via evalEnv, print, read stdin, iterate, user error, error inside native code, inspect built-in prototypes), " +
 			"each history in a new process, under 2 reuse drivers (playground: one const env, one enclosed scope per program - the call sequence of web/wasm/executor.go; `pangaea test`: runscript.RunTest over a generated directory); " +
 			"oracle: (stdout, value, error message, stack trace) of the program under test equals its observation alone in a new process; states = histories, transitions = program evaluations; " +
 			"non-trivial = every history of length >=1; distinct = distinct (driver, history, program)",
 		Assumptions: []string{
 			"the playground is driven through the executor's call sequence (web/wasm pins an old release and cannot be built against the working tree)",
 			"under RunTest earlier programs are the non-failing ones (a failing file ends the run by design)",
+			"don't-care: under RunTest all files share the one standard input of the process, so programs that read it are used as the program under test only, not as earlier programs (in the playground every execution gets its own input and they are used in both roles)",
 		},
 		Run:     run,
 		Replay:  replay,
@@ -49,6 +50,7 @@ type prog struct {
 	Src   string `json:"src"`
 	Stdin string `json:"stdin,omitempty"`
 	Fails bool   `json:"fails,omitempty"`
+	Reads bool   `json:"reads,omitempty"` // reads standard input
 }
 
 var alphabet = []prog{
@@ -64,7 +66,10 @@ var alphabet = []prog{
 	{Name: "syntax-error", Src: "x := (", Fails: true},
 	{Name: "intern-symbols", Src: "\"newsym_a := 1; newsym_b := newsym_a + 1; newsym_b\".evalEnv"},
 	{Name: "print", Src: "\"hello\".p\n[1, 2]@p\n3"},
-	{Name: "read-stdin", Src: "a := <>\nb := <>\n[a, b]", Stdin: "line1\nline2\nline3\n"},
+	{Name: "read-stdin", Src: "a := <>.S\nb := <>.S\n[a, b]", Stdin: "line1\nline2\nline3\n", Reads: true},
+	{Name: "read-stdin-one-of-three", Src: "<>.S.p\n1", Stdin: "p1\np2\np3\n", Reads: true},
+	{Name: "read-stdin-all-lines", Src: "<>@{|l| l.uc}", Stdin: "x1\nx2\n", Reads: true},
+	{Name: "read-stdin-empty", Src: "[<>.S, <>@{|l| l}]", Stdin: "", Reads: true},
 	{Name: "iterate", Src: "it := <{|n| yield n if n < 3; recur(n + 1)}>.new(0)\n[it.next, it.A, (1:4)@{|i| i * 2}]"},
 	{Name: "user-error", Src: "raise AssertionErr.new(\"user\")", Fails: true},
 	{Name: "native-error", Src: "[1, \"a\"].sum", Fails: true},
@@ -409,7 +414,9 @@ func gen(c *core.Ctx, thorough bool, emit func(tcase)) {
 				return
 			}
 			for a := range alphabet {
-				if driver == "runtest" && fails[a] {
+				if driver == "runtest" && (fails[a] || alphabet[a].Reads) {
+					// `pangaea test` stops at a failing file, and gives all files the one standard input of the
+					// process: a file that reads it legitimately changes what later files can read
 					continue
 				}
 				rec(append(h, a))
